@@ -971,6 +971,7 @@ class CloseMonitor(Monitor):
         self.close_kinds = set()
         self.close_dgram_step = {}
         self.idle_early_checks = 0
+        self.peer_close_seen_on_the_wire = 0
         self.largest_opened = {}
         self.last_rx_certain = {}
         self.api_close = {}  # endpoint -> (t, pto) of the application's close() call on a connection that was not closing
@@ -1009,6 +1010,12 @@ class CloseMonitor(Monitor):
                 if (v.space, v.pn) in opened and v.pn > self.largest_opened.get(k, -1):
                     self.largest_opened[k] = v.pn
                     self.last_rx_certain[ep.name] = t
+                    # a CONNECTION_CLOSE in a packet that was certainly processed: the endpoint is draining from now on,
+                    # whatever its own state variable says
+                    if ep.name not in self.t0 and any(f["name"].startswith("CONNECTION_CLOSE") for f in v.frames):
+                        self.t0[ep.name] = (t, ref_pto(ep.conn), "draining")
+                        self.close_kinds.add("peer-close")
+                        self.peer_close_seen_on_the_wire += 1
         if ep.name not in self.t0 and ep.conn._state.name == "DRAINING":
             self.t0[ep.name] = (t, ref_pto(ep.conn), "draining")
             self.close_kinds.add("peer-close")
